@@ -107,8 +107,64 @@ def w_shapes(tier, rng, ty):
             yield s
 
 
+def _kv(req):
+    return dict(x.split('=', 1) for x in req.split()[1:] if '=' in x)
+
+
+def _nats(v):
+    return [] if v in ('[]', '') else [int(x) for x in v.split(',')]
+
+
+def pred_strides_narrow_element_type(case):
+    """compute_strides / the two-argument compute_indices on a shape whose LEADING stride (product of all extents but the
+    first) is not representable in the element type of the shape container: index::stride forms the product in that type"""
+    op = case.req.split()[0]
+    if op not in ('w_strides', 'w_indices'):
+        return False
+    kv = _kv(case.req)
+    if kv.get('ty') not in W_LIM or 'shape' not in kv:
+        return False
+    s = _nats(kv['shape'])
+    return all(1 <= e < W_LIM[kv['ty']] for e in s) and prod(s[1:]) >= W_LIM[kv['ty']]
+
+
+KNOWN_PREDICATES = {'strides_narrow_element_type': pred_strides_narrow_element_type}
+
+
+def w_wrap(ty, x):
+    return x % W_LIM[ty] if ty[0] == 'u' else ((x + W_LIM[ty]) % (2 * W_LIM[ty]) - W_LIM[ty])
+
+
+def w_offdomain_cases(tier, rng):
+    """known finding strides.narrow-element-type: extents fit the element type, the leading stride does not.
+    Unsigned element types wrap (well defined: the model mirrors it, `mStrides_unsigned_wrap_counterexample`); for signed
+    ones the multiplication overflows (UB, model answer `ub`, not compared: `model=False`)."""
+    table = [('u32', [2, 65537, 65537], [0, 7, 4295098369, 2 ** 33]), ('u32', [2, 65536, 65536], [5]), ('u32', [3, 2 ** 20, 2 ** 20, 5], [12345678901]),
+             ('u32', [5, 2 ** 32 - 1, 2], [2 ** 33 + 1]), ('u64', [2, 2 ** 32 + 1, 2 ** 32 + 1], [2 ** 34 + 3]), ('u64', [3, 2 ** 63, 2], [7])]
+    for i in range(6 if tier == 'quick' else 60):
+        ty = ('u32', 'u64')[i % 2]
+        M = W_LIM[ty]
+        r = rng.randint(2, 5)
+        tail = w_factor(rng, M * rng.randint(2, 2 ** 10) + rng.randrange(0, 2 ** 10), r)
+        if all(e < M for e in tail) and prod(tail) >= M and prod(tail) < 2 ** 100:
+            table.append((ty, [rng.randint(1, 5)] + tail, [rng.randrange(2 ** 63)]))
+    for n, (ty, s, offs) in enumerate(table):
+        st = strides_py(s)
+        k = W_KINDS[n % 3]
+        yield Case('w_strides ty=%s kind=%s shape=%s' % (ty, k, fmt(s)), 'h_c01w', dom=False, oracle='ok ' + fmt(st), tags=['w_strides', 'off-domain', 'ty=' + ty])
+        wst = [w_wrap(ty, x) for x in st]
+        for off in offs:
+            if 0 in wst and tier == 'quick' and n > 1:
+                continue        # division by zero kills the harness; one instance is enough in the quick tier
+            yield Case('w_indices ty=%s kind=%s off=%d shape=%s' % (ty, k, off, fmt(s)), 'h_c01w', dom=False, oracle='ok ' + fmt(indices_py(off, s)), tags=['w_indices', 'off-domain', 'ty=' + ty])
+    for n, (ty, s) in enumerate([('i32', [2, 65536, 65536]), ('i32', [3, 46341, 46341]), ('i64', [2, 2 ** 32, 2 ** 31]), ('i32', [1, 2 ** 16, 2 ** 15])]):
+        yield Case('w_strides ty=%s kind=%s shape=%s' % (ty, W_KINDS[n % 3], fmt(s)), 'h_c01w', dom=False, model=False, oracle='ok ' + fmt(strides_py(s)),
+                   tags=['w_strides', 'off-domain', 'signed-overflow', 'ty=' + ty])
+
+
 def w_cases(tier, rng):
     ctr = 0
+    yield from w_offdomain_cases(tier, rng)
     # (a) small scope, every element type x kind: every offset / index
     for s in shapes(3, 3, min_rank=1):
         n = prod(s); st = strides_py(s); nt = sum(1 for e in s if e > 1) >= 2
